@@ -12,7 +12,7 @@ from ..core import AnalysisError, Ctx, norm
 from ..pyfacts import dotted, calls_in, bind_args, guards_at
 
 META = {
-    "explanation": "(R1) is_valid_for_version is evaluated by PAI with symbolic version / minVersion / maxVersion related only by order (v = bound - e, bound, bound + e with e > 0; bounds present or absent): accepted exactly when min <= v <= max. (R2) Validator.get_versioned_schema / get_versioned_properties are partially evaluated on the repository's own schema files (source-tree data, $ref shared per file as jsonref does) for every root type and every version cut point (each distinct bound, just below and just above it) and the pruned tree is compared node by node with a reference pruning written from C09's statement - every annotated keyword, object and value alternative reachable as a block of Mapfile text must be present exactly inside its range, everything unannotated untouched. (R3) call histories on one Validator object: get_expanded_schema is evaluated for sequences of (name, version) requests with jsonref.load stubbed to hand out a fresh object per call - two requests share an object iff they have the same name and version; the pruned object is the one cached for that version; validate() uses the versioned schema iff a version is given.",
+    "explanation": "(R1) is_valid_for_version is evaluated by PAI with symbolic version / minVersion / maxVersion related only by order (v = bound - e, bound, bound + e with e > 0; bounds present or absent): accepted exactly when min <= v <= max. (R2) Validator.get_versioned_schema / get_versioned_properties are partially evaluated on the repository's own schema files (source-tree data, $ref shared per file as jsonref does) for every root type and every version cut point (each distinct bound, just below and just above it) and the pruned tree is compared node by node with a reference pruning written from C09's statement - every annotated keyword, object and value alternative reachable as a block of Mapfile text must be present exactly inside its range, everything unannotated untouched. (R3) call histories on one Validator object: get_expanded_schema is evaluated for sequences of (name, version) requests with jsonref.load stubbed to hand out a fresh object per call - two requests share an object iff they have the same name and version; the pruned object is the one cached for that version; validate() uses the versioned schema iff a version is given. R2 also asks one Validator for several root types at one version (map then layer, map then class, layer / style / map): each later tree equals the reference pruning behind every $ref (the model dictionaries carry jsonref's __reference__ through a hook).",
     "level_text": "The version dimension is finite (the distinct bounds in the schema files) and the schema tree is repository data, so the product entry x cut point x root type is enumerated completely; the range test itself is decided over orderings, i.e. for all numeric values. Cache behaviour over call histories is decided on the abstract heap (object identity), for every interleaving of requests with <= 3 distinct keys.",
     "level_note": "Trusted: jsonref resolves equal $ref URIs to one shared object within a load and shares nothing between loads; jsonschema validates against the pruned dict. The partial evaluation interprets repository code on repository data only; no Mapfile is involved.",
     "technique": "abstract interpretation over order relations + partial evaluation of the pruning on the schema files compared with a reference pruning + abstract-heap evaluation of cache histories",
